@@ -395,7 +395,7 @@ def _accumulators(body):
 
 def accumulate_loop(interp, node, mseq, env):
     from .loops import _child_env
-    from .interp import PyRaise
+    from .interp import PyRaise, ContinueEx, BreakEx
 
     c = cur()
     if node.orelse:
@@ -428,7 +428,12 @@ def accumulate_loop(interp, node, mseq, env):
                     recs[name] = RecList(name) if isinstance(o, AList) else RecDict(name, o)
                     e2.vars[name] = recs[name]
                 interp.assign(node.target, seg.item(i), e2)
-                interp.exec_block(node.body, e2)
+                try:
+                    interp.exec_block(node.body, e2)
+                except ContinueEx:
+                    pass  # `continue`: this iteration ends here
+                except BreakEx:
+                    raise Unsupported("`break` inside a loop over an abstract collection")
                 return {name: r.ops for name, r in recs.items()}
 
             out = []
